@@ -67,7 +67,24 @@ fn split_blocks(text: &str) -> Vec<String> {
     blocks
 }
 
+/// A logger that accepts everything (trace level) and drops it: with it installed every argument
+/// of every `log::…!` call in the library is evaluated, as it is in an application that logs.
+struct SinkLogger;
+impl log::Log for SinkLogger {
+    fn enabled(&self, _: &log::Metadata) -> bool {
+        true
+    }
+    fn log(&self, r: &log::Record) {
+        // format the message so that lazily evaluated arguments run
+        let _ = format!("{}", r.args());
+    }
+    fn flush(&self) {}
+}
+static SINK: SinkLogger = SinkLogger;
+
 fn main() {
+    let _ = log::set_logger(&SINK);
+    log::set_max_level(log::LevelFilter::Trace);
     // panics inside the library are caught per call; keep their messages out of stderr
     std::panic::set_hook(Box::new(|_| {}));
     let args: Vec<String> = std::env::args().collect();
